@@ -6,6 +6,16 @@ ALL = ["C%02d" % i for i in range(1, 21)]
 
 # id -> (level, technique, level text, level note, design ref)
 CHECKS = {
+    "C01": ("exploration",
+            "runtime monitoring: transcript + callback-trace oracle on non-accepted connections (generated credentials, malformed password messages, pipelined/late continuations)",
+            "Real server with ClearTextPassword/custom strategies over the instrumented transport; every non-accepting connection must show R(3) [E] + the server's own Close and no callback other than the validator; accepting ones must reach a working session. Held-on-observed.",
+            "Trusts transport, independent parser; validator outcome scripted from the password.",
+            "DESIGN.md 4/C01"),
+    "C06": ("exploration",
+            "runtime monitoring: NFA reference model of the extended protocol decided per message in lock-step (promptness = reply complete when the server blocks for input) + pipelined/lock-step metamorphic equality",
+            "All message histories up to length 4 over a 13-symbol alphabet (exhaustive) plus random longer histories run against the real server; each reply and callback set must be explained by an admissible model state; the same history pipelined must give identical bytes and trace. Held-on-observed.",
+            "Trusts transport, parser and the model in harness/checks/ext.go; open behaviours listed in the evidence assumptions are accepted in every reading.",
+            "DESIGN.md 4/C06"),
     "C05": ("exploration",
             "runtime monitoring: reference-model oracle over transcripts + per-operation byte attribution (exhaustive small scripts + seeded random)",
             "Every Query cycle produced by exhaustively enumerated and random handler scripts is executed against the real server over the instrumented transport; a reference model of the cycle and of the result-writer state machine decides transcript, per-call emitted bytes, return classes and Written(). Held-on-observed, not a proof.",
